@@ -23,3 +23,10 @@ pub type VarRenameMap = HashMap<String, String>;
 /// Shorthand for mapping between string labels (domain label, proposition, formula) and the corresponding
 /// set it evaluates to.
 pub type LabelToSetMap = HashMap<String, GraphColoredVertices>;
+
+/// Verification hooks: re-export private functions so that an external harness can replay
+/// solver counterexamples against the compiled code. Only with the (off by default) feature `hctl_verif`.
+#[cfg(feature = "hctl_verif")]
+pub mod verif_hooks {
+    pub use super::canonization::{get_canonical, get_canonical_and_renaming};
+}
